@@ -236,6 +236,25 @@ pub fn build_small(d: &Desc) -> Option<Case> {
                         s.add_xorb(x);
                     }
                 },
+                5 | 6 => {
+                    // byte totals beyond 32 bits: per-record fields are u32, the shard's totals are u64
+                    // (a shard describing more than 4 GiB: e.g. 65+ full xorbs, or one 5 GiB file)
+                    for i in 0..3u64 {
+                        let mut x = mk_xorb(i, [30 + i, 0, 0, 0], 2, 1);
+                        x.bytes_in_cas = 3_000_000_000;
+                        x.bytes_on_disk = if *variant == 5 { 2_900_000_000 } else { 17 };
+                        x.chunks[0].bytes = 1_400_000_000;
+                        x.chunks[0].start = 0;
+                        x.chunks[1].bytes = 1_600_000_000;
+                        x.chunks[1].start = 1_400_000_000;
+                        s.add_xorb(x);
+                    }
+                    let mut f = mk_file(1, [2, 0, 0, 0], 3, if *variant == 5 { 3 } else { 0 });
+                    for sg in f.segs.iter_mut() {
+                        sg.bytes = 3_000_000_000;
+                    }
+                    s.add_file(f);
+                },
                 _ => {
                     // the same chunk list stored in two xorbs (a re-packed duplicate), 40 chunks each
                     for i in 0..2u64 {
@@ -481,7 +500,7 @@ pub fn enumerate(tier: Tier) -> Vec<Desc> {
             }
         }
     }
-    for variant in 0..5u8 {
+    for variant in 0..7u8 {
         v.push(Desc::BigDup { variant });
     }
     // interpolation regime
